@@ -176,6 +176,8 @@ def run(chk, facts, tier, only=None):
         chk.include(c02, "C02.R4", "C04.R9", facts)     # header validation incl. replace_empty: only vacuous records become `empty`; check_subtype accepts only through the check
         import c03
         chk.include(c03, "C03.R2", "C04.R10", facts)    # "encoded at t": the encoder's type table is one the decoder can read (indices signed, primitives never tabled)
+        chk.include(c02, "C02.R14", "C04.R11", facts)   # a coercion failure below an opt stays a coercion failure on its way up (the accepted subtype decodes to null, not to an error)
+        chk.include(c05, "C05.R5", "C04.R12", facts)    # the upgrade check compares (new, old merged with every clashing name renamed): no definition is shared between the revisions unchecked
     if not only or only == "C04.R1":
         chk.run_rule("C04.R1", "checker rule table and decoder acceptance table agree in both directions",
                      lambda: rule_tables(chk, facts))
